@@ -185,6 +185,7 @@ def random_traces(run, n, length, seed):
     traces = []
     for k in range(n):
         r = random.Random(seed * 7919 + k)
+        multi = k % 2 == 1          # odd traces: several files may disappear between two scans
         rm = RealMonitor("rnd%d" % k)
         steps = []
         present = {}
@@ -204,7 +205,7 @@ def random_traces(run, n, length, seed):
                     present[f] = content
                     steps.append({"kind": "write", "f": f, "content": {nm: content.get(nm, "none") for nm in content},
                                   "valid": valid, "mtime": clock})
-                elif x < 0.6 and present and not pending_removal:
+                elif x < 0.6 and present and (not pending_removal or multi):
                     f = r.choice(sorted(present))
                     rm.remove(f)
                     del present[f]
@@ -363,13 +364,17 @@ def check(run, tier):
             if res.violated:
                 raise common.MachineryFailure("leg A: the monitor specification violates %s" % res.violated)
     run.extra["edge_graphs"] = []
-    for (ev, pd) in ([(4, 1)] if quick else [(5, 1), (4, 2)]):
-        res = tlc.run("MC_C18", cfg18("MC_C18_e.cfg", True, "FilesAB", '{"p"}', '{"d1", "d2"}', ev, pd, emit=True, inv=False),
-                      workers=1, timeout=1800)
+    # (events, scans after up to `pending` events, definitions): the second graph lets two events happen between scans
+    for (ev, pd, dfs) in ([(4, 1, '{"d1", "d2"}'), (4, 2, '{"d1"}')] if quick else [(5, 1, '{"d1", "d2"}'), (4, 2, '{"d1", "d2"}'), (5, 2, '{"d1"}')]):
+        res = tlc.run("MC_C18", cfg18("MC_C18_e.cfg", True, "FilesAB", '{"p"}', dfs, ev, pd, emit=True, inv=True),
+                      workers=1, timeout=1800, allow_violation=True)
+        run.add_tlc(res, "MC_C18 edge graph events=%d pending=%d (invariant checked)" % (ev, pd))
+        if res.violated:
+            raise common.MachineryFailure("leg A: the monitor specification violates %s" % res.violated)
         edges = res.tag("E")
         if len(edges) + 1 != res.generated:
             raise common.MachineryFailure("C18 edge emission: %d edges for %d transitions" % (len(edges), res.generated))
-        run.extra["edge_graphs"].append({"events": ev, "pending": pd, "edges": len(edges), "states": res.distinct})
+        run.extra["edge_graphs"].append({"events": ev, "pending": pd, "definitions": dfs, "edges": len(edges), "states": res.distinct})
         replay_edges(run, edges)
     random_traces(run, 40 if quick else 400, 60 if quick else 120, common.SEED)
     documents(run, quick)
